@@ -48,6 +48,12 @@ pub fn numeric_schemas(small: bool) -> Vec<Value> {
                 }
             }
         }
+        // both keywords of one side at once, in either order of tightness
+        out.push(json!({"type": ty, "minimum": 0, "maximum": 5, "exclusiveMaximum": 10}));
+        out.push(json!({"type": ty, "minimum": 0, "maximum": 10, "exclusiveMaximum": 5}));
+        out.push(json!({"type": ty, "minimum": 5, "exclusiveMinimum": 2, "maximum": 9}));
+        out.push(json!({"type": ty, "minimum": 2, "exclusiveMinimum": 5, "maximum": 9}));
+        out.push(json!({"type": ty, "minimum": 3, "exclusiveMinimum": 3, "maximum": 6, "exclusiveMaximum": 6}));
     }
     out
 }
@@ -165,6 +171,12 @@ pub fn combinator_schemas() -> Vec<Value> {
         json!({"$defs": {"s": {"type": "string", "minLength": 1}}, "$ref": "#/$defs/s", "maxLength": 2}),
         json!({"$defs": {"n": {"type": "integer", "minimum": 2}}, "$ref": "#/$defs/n", "maximum": 4}),
         json!({"type": "array", "prefixItems": [{"type": "integer"}], "items": false, "minItems": 1}),
+        // numeric bounds of both kinds met through $ref / anyOf / allOf intersections
+        json!({"$defs": {"n": {"type": "integer", "minimum": 0, "maximum": 5}}, "$ref": "#/$defs/n", "exclusiveMaximum": 10}),
+        json!({"$defs": {"n": {"type": "integer", "minimum": 0, "exclusiveMaximum": 10}}, "$ref": "#/$defs/n", "maximum": 5}),
+        json!({"$defs": {"n": {"type": "number", "exclusiveMinimum": 0, "maximum": 5}}, "$ref": "#/$defs/n", "minimum": 2}),
+        json!({"anyOf": [{"type": "integer", "minimum": 0, "maximum": 5}, {"type": "null"}], "exclusiveMaximum": 10}),
+        json!({"allOf": [{"type": "integer", "minimum": 1, "exclusiveMaximum": 8}, {"maximum": 4, "exclusiveMinimum": 0}]}),
         // enum / const intersected with sibling keywords
         json!({"type": "string", "enum": ["é", "ab", "x", "éé"], "minLength": 2}),
         json!({"enum": ["é", "ab", "abc", "😀", "😀😀"], "maxLength": 1}),
@@ -204,6 +216,86 @@ pub fn nested_numeric_schemas(small: bool) -> Vec<Value> {
     out
 }
 
+/// Pairwise intersections: every ordered pair of "half schemas" drawn from a small keyword menu,
+/// joined by allOf, and (for a fixed third of the pairs) by $ref + sibling keywords. Object halves
+/// vary properties / patternProperties / additionalProperties / required, array halves vary
+/// prefixItems / items / minItems / maxItems.
+pub fn intersection_schemas(small: bool) -> Vec<Value> {
+    fn halves(menus: &[(&str, Vec<Option<Value>>)], ty: &str) -> Vec<Value> {
+        let mut out: Vec<Value> = vec![json!({"type": ty})];
+        for (key, opts) in menus {
+            let mut next = vec![];
+            for h in out.iter() {
+                for o in opts.iter() {
+                    let mut h2 = h.clone();
+                    if let Some(v) = o {
+                        if *key == "len" {
+                            for (k, x) in v.as_object().unwrap() {
+                                h2[k] = x.clone();
+                            }
+                        } else {
+                            h2[*key] = v.clone();
+                        }
+                    }
+                    next.push(h2);
+                }
+            }
+            out = next;
+        }
+        out.retain(|h| h.as_object().unwrap().len() > 1);
+        out
+    }
+    let a = json!({"a": {"type": "integer"}});
+    let ab = json!({"a": {"type": "integer"}, "b": {"type": "null"}});
+    let px = json!({"^x": {"type": "integer"}});
+    let pa = json!({"^a": {"type": "integer", "maximum": 3}});
+    let obj_menus: Vec<(&str, Vec<Option<Value>>)> = if small {
+        vec![
+            ("properties", vec![None, Some(a.clone())]),
+            ("patternProperties", vec![None, Some(px.clone())]),
+            ("additionalProperties", vec![None, Some(json!(false)), Some(json!({"type": "null"}))]),
+        ]
+    } else {
+        vec![
+            ("properties", vec![None, Some(a.clone()), Some(ab.clone())]),
+            ("patternProperties", vec![None, Some(px.clone()), Some(pa.clone())]),
+            ("additionalProperties", vec![None, Some(json!(false)), Some(json!({"type": "null"})), Some(json!({"type": "integer"}))]),
+            ("required", vec![None, Some(json!(["a"]))]),
+        ]
+    };
+    let arr_menus: Vec<(&str, Vec<Option<Value>>)> = if small {
+        vec![
+            ("prefixItems", vec![None, Some(json!([{"type": "integer"}, {"type": "boolean"}]))]),
+            ("items", vec![None, Some(json!(false)), Some(json!({"type": "null"}))]),
+            ("len", vec![None, Some(json!({"minItems": 1}))]),
+        ]
+    } else {
+        vec![
+            ("prefixItems", vec![None, Some(json!([{"type": "integer"}])), Some(json!([{"type": "integer"}, {"type": "boolean"}]))]),
+            ("items", vec![None, Some(json!(false)), Some(json!({"type": "null"})), Some(json!({"type": "integer", "minimum": 2}))]),
+            ("len", vec![None, Some(json!({"minItems": 1})), Some(json!({"maxItems": 1})), Some(json!({"minItems": 2, "maxItems": 3}))]),
+        ]
+    };
+    let mut out = vec![];
+    for hs in [halves(&obj_menus, "object"), halves(&arr_menus, "array")] {
+        for (i, h1) in hs.iter().enumerate() {
+            for (j, h2) in hs.iter().enumerate() {
+                out.push(json!({"allOf": [h1, h2]}));
+                if (i + 2 * j) % 3 == 0 {
+                    let mut s = json!({"$defs": {"h": h1}, "$ref": "#/$defs/h"});
+                    for (k, v) in h2.as_object().unwrap() {
+                        if k != "type" {
+                            s[k] = v.clone();
+                        }
+                    }
+                    out.push(s);
+                }
+            }
+        }
+    }
+    out
+}
+
 pub fn all_schemas(small: bool) -> Vec<Value> {
     let mut v = numeric_schemas(small);
     v.extend(nested_numeric_schemas(small));
@@ -211,5 +303,12 @@ pub fn all_schemas(small: bool) -> Vec<Value> {
     v.extend(array_schemas());
     v.extend(object_schemas());
     v.extend(combinator_schemas());
+    v
+}
+
+/// all_schemas plus the pairwise intersection family
+pub fn all_schemas_x(small: bool) -> Vec<Value> {
+    let mut v = all_schemas(small);
+    v.extend(intersection_schemas(small));
     v
 }
